@@ -424,7 +424,6 @@ def _correspondence_cases(ctx):
     naf = ec.PointJacobi._naf
     ks = list(range(0, 70)) + [2 ** k + d for k in (7, 8, 16, 31, 32, 63, 64, 127, 255, 256, 520, 521) for d in (-1, 0, 1)]
     ks += [r.randrange(2 ** r.choice([8, 16, 64, 128, 256, 521])) for _ in range(ctx.budget(60, 600))]
-    ks += [-1, -2, -3, -7, -255, -r.randrange(2 ** 64)]
     for k in ks:
         add("(rl (naf %s) %s)" % (qZ(k), qzl(naf(k))), ("naf", k))
         ctx.case(("naf", k), trivial=(k == 0))
